@@ -200,7 +200,7 @@ fn replay_inner(file: &str) -> ! {
                 0
             }
             Ok(Ran::Viol { sig, what }) => {
-                println!("REPLAY: clause=no-panic signature={sig}");
+                println!("REPLAY: clause={} signature={sig}", clause_of(&sig));
                 println!("  {what}");
                 1
             }
@@ -209,7 +209,7 @@ fn replay_inner(file: &str) -> ! {
                 2
             }
             Err(_) => {
-                println!("REPLAY: clause=no-panic signature=unbounded-loop:{tname}");
+                println!("REPLAY: clause=terminates signature=unbounded-loop:{tname}");
                 println!("  the case did not return within {CASE_TIMEOUT_S} s");
                 1
             }
@@ -229,7 +229,7 @@ fn replay_main(file: &str) -> i32 {
     match st.code() {
         Some(c) => c,
         None => {
-            println!("REPLAY: clause=no-panic signature=abort");
+            println!("REPLAY: clause=no-abort signature=abort");
             println!("  the process executing the case died with {}", status_text(&st));
             1
         }
@@ -494,7 +494,8 @@ fn main() {
         .set("threads", mc_core::cli::threads() as u64)
         .set("case_timeout_s", CASE_TIMEOUT_S)
         .set("address_space_cap_bytes", AS_CAP_BYTES);
-    ev.assume("the statement's 'random bytes' are replaced by bounded-exhaustive token strings and mutations: a coverage statement for the bound, not a claim about all byte strings")
+    ev.assume("ws::Codec / ws::Parser are swept under max_size in {0, 1, 125, 126, 65536, 16 MiB}; a server configured with a practically unlimited max_size (e.g. usize::MAX) is outside the enumerated configurations")
+        .assume("the statement's 'random bytes' are replaced by bounded-exhaustive token strings and mutations: a coverage statement for the bound, not a claim about all byte strings")
         .assume("header values reach typed parsers only through the real HTTP/1 request decoder (a value it refuses cannot be delivered by a peer); FromStr parsers are called only with what HeaderValue::to_str admits")
         .assume("multipart: a parked Pending after the source ended is property C15's subject and is an outcome class here; only a busy loop beyond the poll bound or a panic is a C19 violation")
         .assume("debug assertions and overflow checks are on: a failed debug_assert or an arithmetic overflow is a panic");
